@@ -69,7 +69,10 @@ class Prop(PropBase):
         pb, np, u = self.pb, self.np, self.u
         g = np.random.default_rng(case["seed"])
         shape = (case["N"],) + tuple(case["sshape"])
-        x = (g.standard_normal(shape) + 1j * g.standard_normal(shape)).astype({"c8": "c8", "c16": "c16"}[case["dtype"]])
+        x = (g.standard_normal(shape) + 1j * g.standard_normal(shape))
+        if case["seed"] % 5 == 0:
+            x = x * [1e-9, 1e-12][case["seed"] % 2]          # weak signals: the operation is linear (no absolute tolerances)
+        x = x.astype({"c8": "c8", "c16": "c16"}[case["dtype"]])
         kw = {"pol_type": "linear"} if case["cls"] == "DualPolarizationSignal" else {}
         return sigs.make(pb, case["cls"], case["N"], case["rate"] * u.Hz, sigs.T0S[0], nchan=case["sshape"][0], data=x,
                          center_freq=400 * u.MHz, freq_align="bottom", **kw)
